@@ -201,7 +201,10 @@ def oracle(c, r):
             yield ("poly-nonfinite", "least_squares returned %r" % (coef,))
             return
         cond = hankel_cond(K, xs, w)
-        explained = 1e5 * cond * 2.3e-16 + 1e-9      # what conditioning of the normal equations alone can cost
+        # what conditioning of the normal equations can cost: x = inverse(M) * b with an explicitly inverted matrix has
+        # forward error up to c * cond(M)^2 * u (Higham, Accuracy and Stability, ch. 14: cond * |inv||b|/|x| <= cond^2),
+        # not the c * cond * u of a backward-stable solve
+        explained = max(1e5 * cond, 50.0 * cond * cond) * 2.3e-16 + 1e-9
         def p(x):
             return sum(cc * x ** i for i, cc in enumerate(coef))
         # orthogonality of the residual to every monomial column, relative to the size of the terms
